@@ -16,6 +16,11 @@ def callback(name, v):
     return ("cb", name, freeze(v))
 
 
+def callback_p(name, x, p):
+    rt.call("callback", name, v=x, p=p)
+    return ("cb", name, freeze(x), (("p", freeze(p)),))
+
+
 def effect(name, v):
     rt.call("effect", name, v=v)
     return None
